@@ -95,8 +95,21 @@ func (i *interpreter) global(g *ssa.Global) *value {
 		return r
 	}
 	cell := zero(deref(g.Type()))
+	if g.Pkg != nil {
+		if f, ok := globalInits[g.Pkg.Pkg.Path()+"."+g.Name()]; ok {
+			cell = f(i)
+		}
+	}
 	i.globals[g] = &cell
 	return &cell
+}
+
+// globalInits: initial values of a few library globals whose package
+// init functions are not executed.
+var globalInits = map[string]func(i *interpreter) value{
+	"net.v4InV6Prefix": func(i *interpreter) value {
+		return bytesToValues([]byte{0, 0, 0, 0, 0, 0, 0, 0, 0, 0, 0xff, 0xff})
+	},
 }
 
 func (fr *frame) runDefer(d *deferred) {
